@@ -243,10 +243,10 @@ def gen_c16(tier, seed):
             names = rand_list(rnd, cls, rnd.choice([6, 12, 20, 30]))
             scs.append(pure(f"grid-{cls}-{rep}", "cmp_grid", attr=rnd.choice(["name", "name", "kind"]), names=names))
     # single comparisons
-    for j in range(1200 if not big else 8000):
+    for j in range(2500 if not big else 20000):
         a, b = near_pair(rnd)
         scs.append(pure(f"nat{j}", "cmp_nat", a=a, b=b))
-    for j in range(900 if not big else 6000):
+    for j in range(2000 if not big else 15000):
         cls = rnd.choice(list(LIST_CLASSES))
         names = rand_list(rnd, cls, rnd.randint(1, 8))
         i, jj = rnd.randrange(len(names)), rnd.randrange(len(names))
@@ -403,7 +403,7 @@ def gen_c13(tier, seed):
                 scs.append(pure(f"ex{k}", "is_match", calls=list(seq), path=p))
                 k += 1
     # random trees x filter sets: 0..4 positive, 0..4 skip
-    for t in range(150 if not big else 600):
+    for t in range(250 if not big else 1500):
         inner, cases = rand_tree_paths(rnd)
         for fsn in range(4):
             npos, nskip = rnd.randint(0, 4), rnd.randint(0, 4)
@@ -479,7 +479,7 @@ def gen_c15(tier, seed):
         if rnd.random() < 0.5:
             o[k1] = [VALUES[k1][0]]
         scs.append(pure(f"mask-{k1}-{k2}", "overwrite", self=s, other=o))
-    for j in range(500 if not big else 4000):
+    for j in range(1000 if not big else 10000):
         scs.append(pure(f"owr{j}", "overwrite", self=rand_options(rnd, rnd.choice([0.2, 0.5, 0.8])),
                         other=rand_options(rnd, rnd.choice([0.2, 0.5, 0.8]))))
     # resolution through runner, benchmark and up to 3 nested groups:
